@@ -87,6 +87,7 @@ LAN = ["a%d" % i for i in range(1, 7)]
 EXT = ["x1", "x2", "x3"]
 LLA = ["l%d" % i for i in range(1, 5)]
 GUA = ["g%d" % i for i in range(1, 5)] + ["u1", "u2"]      # u<K>: unique local addresses
+ODDMACS = ["m201", "m202"]                  # EUI-64 (8 bytes), empty: API arguments only, never a frame source
 NAMES = ["n1", "n2", "n3", "n1u", "n2u"]     # n<K>u = the same name in upper case
 SLOTS = ["dhcp", "mdns", "ssdp", "llmnr", "nbns"]
 
@@ -104,9 +105,20 @@ def random_script(rng, mode, length):
     ext = rng.sample(EXT, 1)
     out = []
     host_frame = False      # a frame with a host is pending (free mode): no dhcpupd before notify
+    # hardware addresses that are not 6 bytes long (EUI-64, empty) can reach the session through its API only
+    odd = rng.sample(ODDMACS, rng.randint(1, 2)) if rng.random() < 0.2 else []
     for _ in range(length):
         x = rng.random()
         m = rng.choice(macs)
+        if odd and rng.random() < 0.12:
+            o, y = rng.choice(odd), rng.random()
+            if y < 0.5:
+                out.append({"a": rng.choice(["capture", "capture", "release"]), "mac": o})
+            elif y < 0.8 or mode == "notify" or host_frame:
+                out.append({"a": "offer", "mac": o, "ip": rng.choice(lan), "name": rng.choice(NAMES + ["noname"])})
+            else:
+                out.append({"a": "dhcpupd", "mac": o, "ip": rng.choice(lan[:3]), "name": rng.choice(NAMES + ["noname"])})
+            continue
         if mode == "notify":
             if x < 0.45:
                 ip = rng.choice(lan + v6 + ext)
@@ -166,6 +178,12 @@ def random_script(rng, mode, length):
         else:
             out.append({"a": "purge"})
             host_frame = False
+    # name sources attach an expiry to what they announce (hours; the same name re-announced with a later expiry is
+    # not a name change); frames that keep repeating a name make such re-announcements likely
+    if rng.random() < 0.5:
+        for a in out:
+            if a.get("name", "noname") != "noname" and rng.random() < 0.7:
+                a["exp"] = rng.choice([1, 2, 3, 24])
     return out
 
 
@@ -281,7 +299,7 @@ def write_script(path, behaviours, ncfg=3, dl=STD):
     return n
 
 
-ARGS = ("a", "src", "key", "ip", "mac", "name", "slot", "d", "kind", "notify", "cfg", "id", "nodrain", "probe", "offline", "purge", "v")
+ARGS = ("a", "src", "key", "ip", "mac", "name", "slot", "d", "kind", "notify", "cfg", "id", "nodrain", "probe", "offline", "purge", "v", "exp")
 
 
 def behaviour_at(trace_path, line):
@@ -300,6 +318,20 @@ def behaviour_at(trace_path, line):
         e = json.loads(x)
         out.append({k: e[k] for k in ARGS if k in e})
     return out
+
+
+def behaviours_upto(trace_path, line, count):
+    """The last `count` logged behaviours ending with the one that contains 1-based `line` (arguments only)."""
+    out, starts = [], []
+    with open(trace_path) as f:
+        for i, x in enumerate(f):
+            if i >= line:
+                break
+            e = json.loads(x)
+            if e.get("a") == "reset":
+                starts.append(len(out))
+            out.append({k: e[k] for k in ARGS if k in e})
+    return out[starts[-count] if len(starts) >= count else 0:]
 
 
 def trace_cfg(mode, check, dl=STD):
@@ -388,7 +420,17 @@ def check_traces(ctx, binary, trace_path, check, label, shared=False, dl=STD):
         script = behaviour_at(trace_path, line)
         ok, info = confirm(ctx, binary, script, check, shared=shared, dl=dl)
         if not ok:
-            raise vlib.InfraError("property-level failure %s at line %d did not reproduce (%s)" % (which, line, info))
+            # the behaviour alone does not show it: process-wide state (pools, log level, limiters) may carry over
+            # from the behaviours executed before it; retry with its predecessors in the same process
+            script = behaviours_upto(trace_path, line, 40)
+            ok, info = confirm(ctx, binary, script, check, shared=shared, dl=dl)
+        if not ok:
+            # verdict rule: an observation that the real code does not reproduce is recorded, it decides nothing
+            vlib.log("  [%s] property-level failure %s at line %d did not reproduce (%s): recorded, no verdict" % (label, which, line, info))
+            ctx.coverage.setdefault("unreproduced", []).append({"source": label, "failed": which, "line": line,
+                                                                "behaviour": behaviour_at(trace_path, line)[-12:]})
+            res["validated_lines"] = line - 1
+            return res
         last = script[-1]
         ctx.report("%s:%s" % (which, last.get("a")), "real session contradicts %s after step %s" % (which, json.dumps(last)),
                    {"script": script, "failed": which, "shared": shared, "dl": list(dl)})
